@@ -57,6 +57,7 @@ type localLink struct {
 	dropped bool
 	mu     sync.Mutex
 	buf    []wamp.Message // filled by the pump while a probe runs
+	hasRewriter bool
 }
 
 // pump keeps reading the inbox until quit is closed, the way a responsive
@@ -83,7 +84,49 @@ func (l *localLink) pump(quit <-chan struct{}, done *sync.WaitGroup) {
 func newLocalLink(e *Engine, s *SimSess) *localLink {
 	c, r := transport.LinkedPeersQSize(s.Cfg.QSize)
 	go func() { _ = e.R.Attach(r) }()
-	return &localLink{c: c}
+	l := &localLink{c: c}
+	if s.Cfg.Rewrite {
+		l.hasRewriter = true
+		go l.rewriter()
+	}
+	return l
+}
+
+// rewriter reads the inbox like an application that owns what it is handed: the
+// top level of every EVENT and INVOCATION (first argument, one keyword argument,
+// one detail) is rewritten the moment it arrives - possibly while the router is
+// still delivering the same publication to others. Ends when the peer is closed.
+func (l *localLink) rewriter() {
+	for m := range l.c.Recv() {
+		switch x := m.(type) {
+		case *wamp.Event:
+			if len(x.Arguments) > 0 {
+				x.Arguments[0] = "rewritten"
+			}
+			if x.ArgumentsKw != nil {
+				x.ArgumentsKw["verif_rewritten"] = true
+			}
+			if x.Details != nil {
+				x.Details["verif_rewritten"] = true
+			}
+		case *wamp.Invocation:
+			if len(x.Arguments) > 0 {
+				x.Arguments[0] = "rewritten"
+			}
+			if x.ArgumentsKw != nil {
+				x.ArgumentsKw["verif_rewritten"] = true
+			}
+			if x.Details != nil {
+				x.Details["verif_rewritten"] = true
+			}
+		}
+		l.mu.Lock()
+		l.buf = append(l.buf, m)
+		l.mu.Unlock()
+	}
+	l.mu.Lock()
+	l.closed = true
+	l.mu.Unlock()
 }
 
 func (l *localLink) send(m wamp.Message, quit <-chan struct{}) bool {
@@ -101,8 +144,8 @@ func (l *localLink) drain() ([]wamp.Message, bool) {
 	l.buf = nil
 	closed := l.closed
 	l.mu.Unlock()
-	if closed {
-		return out, true
+	if closed || l.hasRewriter {
+		return out, closed
 	}
 	for {
 		select {
